@@ -17,6 +17,7 @@ from typing import Callable, List
 
 import torch
 
+from ..qtensor import qfallback
 from .qbits import QBitsTensor
 
 
@@ -68,3 +69,14 @@ def detach(op, t):
     scale = op(t._scale)
     zeropoint = op(t._zeropoint)
     return t.__class__(t._qtype, t._axis, t._group_size, t.size(), t.stride(), data, scale, zeropoint)
+
+
+@register_qbitstensor_op([torch.ops.aten.clone])
+def clone(op, t, memory_format=torch.preserve_format):
+    if type(t) != QBitsTensor:
+        return qfallback(op, t, memory_format=memory_format)
+    # Clone is required to copy a model with frozen weights
+    data = op(t._data, memory_format=memory_format)
+    scale = op(t._scale, memory_format=memory_format)
+    zeropoint = op(t._zeropoint, memory_format=memory_format)
+    return QBitsTensor(t._qtype, t._axis, t._group_size, t.size(), t.stride(), data, scale, zeropoint)
